@@ -103,6 +103,7 @@ class Enc:
     def __init__(self, choices=None):
         self.pad = (choices or {}).get("pad", {})
         self.padall = (choices or {}).get("padall", 0)  # 0 none, 1 max everywhere
+        self.explicit_else = bool((choices or {}).get("explicitElse"))
         self.fields = []  # names of LEB fields met, for the choice generator
 
     def extra(self, field, n, maxlen):
@@ -219,7 +220,16 @@ def enc_instr(e, ins, path):
 
 def enc_expr(e, instrs, path):
     out = []
+    open_ = []          # for every open construct: [is an `if`, has seen its `else`]
     for k, ins in enumerate(instrs):
+        if ins[0] in ("block", "loop", "if"):
+            open_.append([ins[0] == "if", False])
+        elif ins[0] == "else" and open_:
+            open_[-1][1] = True
+        elif ins[0] == "end" and open_:
+            fr = open_.pop()
+            if fr[0] and not fr[1] and getattr(e, "explicit_else", False):
+                out += [0x05]            # `if .. end` is `if .. else end` with an empty else arm: the same instruction
         out += enc_instr(e, ins, "%s.%d" % (path, k))
     return out
 
